@@ -135,6 +135,7 @@ def r05_2_3(prog, rep, direction):
             if slot.foreign:
                 rep.violated("R05.2", c.qualname, f.loc, f"self.{attr} may also hold {T.show(slot.foreign[0])[:80]}, which is not the routine the context holds for that type argument: members of some types are converted by another type's rules", detail=attr + "-foreign")
             if slot.kind == "dict":
+                rep.check("raw" in slot.hint_keys, "R05.2", c.qualname, f.loc, f"self.{attr}: the context is asked for the hint as it is written (the graph registers routines under the hint itself), then for its evaluated form", f"self.{attr}: only the evaluated hint is looked up ({slot.hint_keys}); a field whose hint is a forward reference (string annotations of a plain class) was registered under that reference and is now missed: it falls back to a no-op routine", detail=attr + "-raw-hint")
                 good = slot.keyed_by is not None and slot.keyed_by[0] == "key" and T.refname(slot.keyed_by[1][1]) in K.HINTS
                 rep.check(good, "R05.2", c.qualname, f.loc, f"self.{attr}: field routines come from context[hint] and are stored under the hint's own field name", f"self.{attr}: field routines are not stored under the name of the hint they were resolved from", detail=attr)
             else:
@@ -222,6 +223,7 @@ def run(prog: Program, rep: Report, tier: str):
     rep.rule("R05.2", "applied member routines are context lookups by type argument / hint", floor=9)
     rep.rule("R05.3", "each slot meets its own component", floor=9)
     rep.rule("R05.4", "sibling agreement of the two api modules", floor=9)
+    rep.rule("R05.7", "every documented source shape converts alike: pairs are any 2-element collections (shared with R18.8)", floor=1)
     rep.rule("R05.6", "abstract routine constructors store t, origin(t), context, var", floor=8)
     rep.rule("R05.5", "tolerant field-routine lookups see through forward references (TypeContext rules, shared with C16)", floor=5)
     facts = {}
@@ -235,6 +237,12 @@ def run(prog: Program, rep: Report, tier: str):
     from ..report import Report as _R, absorb
     from . import c16
 
+    from . import c18
+
+    sub = _R("C05", tier)
+    sub.rule("R05.7", "", 0)
+    c18.r18_8(prog, sub, rule="R05.7")
+    absorb(rep, sub, {"R05.7": "R05.7"})
     sub = _R("C05", tier)
     c16.run(prog, sub, tier)
     absorb(rep, sub, {"R16.1": "R05.5", "R16.2": "R05.5", "R16.3": "R05.5"})
